@@ -141,11 +141,7 @@ def _run(codes, storage):
             w.check_clean(where)
             w.check_other_connection(where)
     # every object that was disowned can be added again later
-    for name, ob in list(w.obj.items()):
-        if name not in w.work and name not in w.ever and ob._p_jar is None:
-            w.root[name] = ob
-            w.work[name] = ob.v
-            w.fresh.add(name)
+    w.readd_disowned(' '.join(trace))
     w.commit()
     w.check_view('re-add + final commit after ' + ' '.join(trace))
     w.check_other_connection('final commit after ' + ' '.join(trace))
@@ -206,7 +202,7 @@ def h_multidb(c0: int, c1: int, c2: int, c3: int, n: int, storage: str) -> None:
                 trace.append(t)
                 where = ' '.join(trace)
                 w.check_view(where)
-                if code in ('commit', 'abort', 'close'):
+                if code in ('commit', 'abort', 'close') and t != 'close_refused':
                     w.check_clean(where)
                     w.check_other(where)
             # whatever happened: a change made now through the (possibly reused) group is committed
